@@ -169,7 +169,7 @@ fn cfg_strategy_inner(p: Profile, thorough: bool) -> BoxedStrategy<Cfg> {
                 c.events = b1;
                 c.refs = b2;
                 c.children = b3;
-                c.sync = b3 && b2;
+                c.sync = b3;
                 (vis, prop_oneof![3 => Just(0u8), 1 => Just(2u8)]).prop_map(move |(v, a)| Cfg { vis: v, auth: a, ..c.clone() }).boxed()
             }
             Profile::Prespawn => {
